@@ -128,3 +128,20 @@ def _fvd(case, v):
     # (outputs after check_partials/check_totals) and the complex-step partial of fuel_vol_delta picks up a spurious term
     key = v.get("detail", {}).get("key", "")
     return "fuel_vol_delta" in key
+
+
+# ---------------------------------------------------------------------------------------------- C02
+@predicate("fuel_vol_delta_partial_polluted")
+def _fvd_total(case, v):
+    # same in-place edit as C03/fuel_vol_delta_mutates_input: under OpenMDAO's complex-step loop the halved-in-place fuelburn
+    # input leaves a residue, so d(fuel_vol_delta)/d(fuel_vols) is reported as 1 + O(1e-3) instead of 1; every total of the
+    # fuel-volume margin inherits a relative error of that size
+    if v["family"] != "fd/as" or "of=fuel_vol_delta" not in _tags(v):
+        return False
+    e, tol = v.get("err"), v.get("tol")
+    d = v.get("what", "")
+    try:
+        rep = float(d.split("reported ")[1].split(",")[0])
+    except Exception:
+        return False
+    return e is not None and abs(rep) > 0 and e / abs(rep) < 5e-3
